@@ -87,6 +87,7 @@ func init() {
 			{Name: "re-remove the +1 in pass 1 (F1)", File: "kernel/mm/pmm/bitmap_allocator.go", Old: "pageCount := uint32(regionEndFrame - regionStartFrame + 1)", New: "pageCount := uint32(regionEndFrame - regionStartFrame)", Expect: "C03.R1"},
 			{Name: "drop the double-free test", File: "kernel/mm/pmm/bitmap_allocator.go", Old: "\tif alloc.pools[poolIndex].freeBitmap[block]&mask == 0 {\n\t\talloc.mutex.Release()\n\t\treturn errBitmapAllocDoubleFree\n\t}\n", New: "", Expect: "C03.R2"},
 			{Name: "drop reservedPages-- in free", File: "kernel/mm/pmm/bitmap_allocator.go", Old: "\talloc.pools[poolIndex].freeCount++\n\talloc.reservedPages--\n\talloc.mutex.Release()\n\treturn nil", New: "\talloc.pools[poolIndex].freeCount++\n\talloc.mutex.Release()\n\treturn nil", Expect: "C03.R3"},
+			{Name: "padding bits of the last word reserved in init (seed C03-13)", File: "kernel/mm/pmm/bitmap_allocator.go", Old: "\talloc.reserveKernelFrames()\n\talloc.reserveEarlyAllocatorFrames()\n", New: "\tfor i := range alloc.pools {\n\t\tif n := len(alloc.pools[i].freeBitmap); n != 0 {\n\t\t\talloc.pools[i].freeBitmap[n-1] |= 1\n\t\t}\n\t}\n\talloc.reserveKernelFrames()\n\talloc.reserveEarlyAllocatorFrames()\n", Expect: "C03.R3 bit-writers"},
 			{Name: "ignore the reserveRegionFn error", File: "kernel/mm/pmm/bitmap_allocator.go", Old: "\talloc.poolsHdr.Data, err = reserveRegionFn(requiredBytes)\n\tif err != nil {\n\t\treturn err\n\t}\n", New: "\talloc.poolsHdr.Data, err = reserveRegionFn(requiredBytes)\n\t_ = err\n", Expect: "C03.R4"},
 			{Name: "bitmap rounded to 32 bits", File: "kernel/mm/pmm/bitmap_allocator.go", Old: "bitmapBytes := ((uintptr(regionEndFrame-regionStartFrame+1) + 63) &^ 63) >> 3", New: "bitmapBytes := ((uintptr(regionEndFrame-regionStartFrame+1) + 31) &^ 31) >> 3", Expect: "C03.R1"},
 			{Name: "same error for both bad frees", File: "kernel/mm/pmm/bitmap_allocator.go", Old: "\t\talloc.mutex.Release()\n\t\treturn errBitmapAllocDoubleFree", New: "\t\talloc.mutex.Release()\n\t\treturn errBitmapAllocFrameNotManaged", Expect: "C03.R2"},
@@ -1754,6 +1755,27 @@ func (x *pmmx) c03r3() {
 	c, m := x.c, x.m
 	c.floor("C03.R3", 3)
 	z := x.z
+	// writers-of: a bitmap word is changed only in the three functions whose
+	// accounting is checked below (helpers are seen spliced into them)
+	{
+		var others []string
+		var where []string
+		nscan := 0
+		for _, fn := range m.scanFuncs() {
+			if fn.Pkg != m.pkg("mm/pmm") || fn == x.bAlloc || fn == x.bFree || fn == x.markRole {
+				continue
+			}
+			nscan++
+			g := scanIG(m, fn, nil)
+			for _, bs := range x.bitStores(g) {
+				others = append(others, m.fnName(fn))
+				where = append(where, g.posOf(bs.n))
+				break
+			}
+		}
+		c.check(len(others) == 0, "C03.R3", "bit-writers mm/pmm", fmt.Sprintf("%d other functions of the package scanned: none stores into a bitmap word", nscan),
+			"a bitmap word is also changed in "+strings.Join(others, ", ")+", outside AllocFrame / FreeFrame / the mark function: bits change there without the free and reserved counters following (a reserved bit that was never counted makes the allocator report out of memory with frames counted free, and a free of it is accepted)", where...)
+	}
 	for _, fn := range []*ssa.Function{x.bAlloc, x.bFree, x.markRole} {
 		g := newIG(m, fn, nil)
 		key := "paired-accounting " + m.fnName(fn)
